@@ -42,6 +42,13 @@ instance : Monad M where
 
 @[inline] def get : M BitString := fun s => (.ok s, s)
 @[inline] def set (s : BitString) : M Unit := fun _ => (.ok (), s)
+@[inline] def modify (f : BitString → BitString) : M Unit := fun s => (.ok (), f s)
+/-- lift a state-independent outcome -/
+@[inline] def liftO {α} (o : Outcome α) : M α := fun s =>
+  match o with
+  | .ok a => (.ok a, s)
+  | .err e => (.err e, s)
+  | .panic p => (.panic p, s)
 @[inline] def throwErr {α} (e : String) : M α := fun s => (.err e, s)
 @[inline] def throwPanic {α} (p : String) : M α := fun s => (.panic p, s)
 /-- `_ = f()` / a call whose error result is ignored (panics still propagate) -/
@@ -78,16 +85,18 @@ def checkRange (n : Nat) : M Unit := fun s =>
 /-- `On(n)`: `s.buf[n/8] |= 1 << (7 - n&7)` -/
 def on (n : Nat) : M Unit := do
   checkRange n
-  fun s => match s.buf[n / 8]? with
-    | none => (.panic panicIndex, s)
-    | some b => (.ok (), { s with buf := s.buf.set (n / 8) (b ||| bitMask n) })
+  let s ← get
+  match s.buf[n / 8]? with
+  | none => throwPanic panicIndex
+  | some b => modify fun s => { s with buf := s.buf.set (n / 8) (b ||| bitMask n) }
 
 /-- `Off(n)`: `s.buf[n/8] &= ^(1 << (7 - n&7))` -/
 def off (n : Nat) : M Unit := do
   checkRange n
-  fun s => match s.buf[n / 8]? with
-    | none => (.panic panicIndex, s)
-    | some b => (.ok (), { s with buf := s.buf.set (n / 8) (b &&& ~~~ bitMask n) })
+  let s ← get
+  match s.buf[n / 8]? with
+  | none => throwPanic panicIndex
+  | some b => modify fun s => { s with buf := s.buf.set (n / 8) (b &&& ~~~ bitMask n) }
 
 /-- `mustGetBit(n)` on a given bit string (panics out of range) -/
 def getBitOf (s : BitString) (n : Nat) : Outcome Bool :=
@@ -95,19 +104,18 @@ def getBitOf (s : BitString) (n : Nat) : Outcome Bool :=
   | none => .panic panicIndex
   | some b => .ok (b &&& bitMask n > 0)
 
-def mustGetBit (n : Nat) : M Bool := fun s =>
-  match getBitOf s n with
-  | .ok b => (.ok b, s)
-  | .err e => (.err e, s)
-  | .panic p => (.panic p, s)
+def mustGetBit (n : Nat) : M Bool := do
+  let s ← get
+  liftO (getBitOf s n)
+
+def advance (n : Nat) : M Unit := modify fun s => { s with rCursor := s.rCursor + n }
 
 /-- `mustReadBit` -/
 def mustReadBit : M Bool := do
   let s ← get
   let bit ← mustGetBit s.rCursor
-  fun s => (.ok bit, { s with rCursor := s.rCursor + 1 })
-
-def advance (n : Nat) : M Unit := fun s => (.ok (), { s with rCursor := s.rCursor + n })
+  advance 1
+  pure bit
 
 /-- the guard `s.BitsAvailableForRead() < n` (as `len < rCursor + n`, the same over the integers) -/
 def needBits (n : Nat) : M Unit := fun s =>
@@ -129,7 +137,7 @@ def readBit : M Bool := do
 def writeBit (val : Bool) : M Unit := do
   let s ← get
   if val then on s.len else off s.len
-  fun s => (.ok (), { s with len := s.len + 1 })
+  modify fun s => { s with len := s.len + 1 }
 
 /-- `WriteBitArray` -/
 def writeBitArray : List Bool → M Unit
@@ -193,8 +201,7 @@ def writeBytes : List UInt8 → M Unit
 def writeBitStringLoop (src : BitString) : (i n : Nat) → M Unit
   | _, 0 => pure ()
   | i, n + 1 => do
-    let bit ← (fun s => match getBitOf src i with
-      | .ok b => (.ok b, s) | .err e => (.err e, s) | .panic p => (.panic p, s) : M Bool)
+    let bit ← liftO (getBitOf src i)
     writeBit bit
     writeBitStringLoop src (i + 1) n
 
@@ -319,7 +326,8 @@ def readUint (bitLen : Nat) : M Nat := do
 /-- `PickUint` -/
 def pickUint (bitLen : Nat) : M Nat := do
   let res ← readUint bitLen
-  fun s => (.ok res, { s with rCursor := s.rCursor - bitLen })
+  modify fun s => { s with rCursor := s.rCursor - bitLen }
+  pure res
 
 /-- `ReadInt(bitLen)`; `int64(base - 1<<(bitLen-1))` in uint64 wrap-around -/
 def readInt (bitLen : Nat) : M Int := do
@@ -476,14 +484,14 @@ def readLimUint (n : Nat) : M Nat := readUint (minBitsRequired n)
 /-! ### Misc -/
 
 /-- `ResetCounter` -/
-def resetCounter : M Unit := fun s => (.ok (), { s with rCursor := 0 })
+def resetCounter : M Unit := modify fun s => { s with rCursor := 0 }
 
 /-- `Copy()` -/
 def copy (s : BitString) : BitString := { buf := s.buf, cap := s.cap, len := s.len, rCursor := 0 }
 
 /-- `Grow(bitLen)` -/
-def grow (bitLen : Nat) : M Unit := fun s =>
-  (.ok (), { s with buf := s.buf ++ List.replicate (bitLen / 8 + 1) 0, cap := s.cap + bitLen })
+def grow (bitLen : Nat) : M Unit :=
+  modify fun s => { s with buf := s.buf ++ List.replicate (bitLen / 8 + 1) 0, cap := s.cap + bitLen }
 
 /-- `Append(b)` -/
 def append (b : BitString) : M Unit := do
@@ -496,7 +504,7 @@ def append (b : BitString) : M Unit := do
 def stripLoop : Nat → M Bool
   | 0 => pure false
   | i + 1 => do
-    (fun s => (.ok (), { s with len := s.len - 1 }) : M Unit)
+    modify fun s => { s with len := s.len - 1 }
     let s ← get
     let b ← mustGetBit s.len
     if b then do off s.len; pure true
@@ -504,7 +512,7 @@ def stripLoop : Nat → M Bool
 
 /-- `SetTopUppedArray(arr, fulfilledBytes)` (the read cursor is kept, as in Go) -/
 def setTopUppedArray (arr : List UInt8) (fulfilledBytes : Bool) : M Unit := do
-  (fun s => (.ok (), { s with cap := arr.length * 8, buf := arr, len := arr.length * 8 }) : M Unit)
+  modify fun s => { s with cap := arr.length * 8, buf := arr, len := arr.length * 8 }
   if fulfilledBytes ∨ arr.length * 8 = 0 then pure ()
   else do
     let found ← stripLoop 7
@@ -542,7 +550,9 @@ def fiftHexAligned (s : BitString) : Outcome (List Char) :=
 /-- the padding loop `for temp.len%4 != 0 { temp.WriteBit(false) }` (errors ignored); it needs at most 3 rounds, a
 fourth would mean that Go loops forever (only possible when `len ≥ cap` after `Grow`, i.e. `len > cap` before) -/
 def padLoop : Nat → M Unit
-  | 0 => fun s => if s.len % 4 ≠ 0 then (.panic "ToFiftHex does not terminate", s) else (.ok (), s)
+  | 0 => do
+    let s ← get
+    if s.len % 4 ≠ 0 then throwPanic "ToFiftHex does not terminate" else pure ()
   | k + 1 => do
     let s ← get
     if s.len % 4 ≠ 0 then do ignoreErr (writeBit false); padLoop k else pure ()
